@@ -17,13 +17,18 @@ CONSTANTS EvictInserted,        \* TRUE = pinned design: pop the first key even 
           RestoreOnFailure,     \* TRUE = DATE_ORDER restored on the ValueError path too (the code does)
           MaxCalls
 
-Keys == {"d", "k1", "k2", "k3"}
+\* d default settings | k1 CACHE_SIZE_LIMIT 1 | k2 CACHE_SIZE_LIMIT 1000 + DATE_ORDER DMY | k3 CACHE_SIZE_LIMIT 2
+\* k4 / k5 differ ONLY in RELATIVE_BASE | k6 DATE_ORDER MDY given explicitly | k7 NORMALIZE True given explicitly
+\* (k6 and k7 have the same effective values as the defaults but are distinct registry objects, and k6
+\* switches the locale's own order off because the order was supplied by the caller)
+Keys == {"d", "k1", "k2", "k3", "k4", "k5", "k6", "k7"}
 Locales == {"en", "fr", "tl"}
 Insts == {"i1", "i2"}
 Strs == {"N", "R", "F"}              \* ambiguous numeric date, relative word, string no parser accepts
 
 Limit(k) == CASE k = "k1" -> 1 [] k = "k3" -> 2 [] OTHER -> 1000
-ExplicitOrder(k) == IF k = "k2" THEN "DMY" ELSE ""
+ExplicitOrder(k) == IF k = "k2" THEN "DMY" ELSE IF k = "k6" THEN "MDY" ELSE ""
+InitBase(k) == IF k = "k4" THEN "B1" ELSE IF k = "k5" THEN "B2" ELSE "none"
 InitOrder(k) == IF k = "k2" THEN "DMY" ELSE "MDY"
 LocOrder(L) == CASE L = "en" -> "MDY" [] L = "fr" -> "DMY" [] OTHER -> ""
 
@@ -34,7 +39,7 @@ vars == <<reg, order, base, cacheSeq, ent, inst, ncalls, out, call>>
 
 Init == /\ reg = {"d"}
         /\ order = [k \in Keys |-> InitOrder(k)]
-        /\ base = [k \in Keys |-> "none"]
+        /\ base = [k \in Keys |-> InitBase(k)]
         /\ cacheSeq = <<>>
         /\ ent = [k \in Keys |-> {}]
         /\ inst = [i \in Insts |-> NoInst]
@@ -58,7 +63,7 @@ Access(seq, en, k, L) ==
 
 \* API entry with a settings dict: the registry object is re-initialised in place
 ReInit(k, o, b) == IF k = "d" THEN <<o, b>>
-                   ELSE <<[o EXCEPT ![k] = InitOrder(k)], [b EXCEPT ![k] = "none"]>>
+                   ELSE <<[o EXCEPT ![k] = InitOrder(k)], [b EXCEPT ![k] = InitBase(k)]>>
 
 \* what the absolute parser reads as DATE_ORDER for locale L under key k, given the field value
 EffOrder(k, L, field) == IF ExplicitOrder(k) # "" THEN field
@@ -66,7 +71,7 @@ EffOrder(k, L, field) == IF ExplicitOrder(k) # "" THEN field
 \* outcome of parsing string class s (after translation succeeded)
 Outcome(s, k, L, o, b) ==
   CASE s = "N" -> IF EffOrder(k, L, o[k]) = "DMY" THEN "DM" ELSE "MD"
-    [] s = "R" -> IF b[k] = "none" THEN "rel-now" ELSE "rel-leaked-base"
+    [] s = "R" -> CASE b[k] = "none" -> "rel-now" [] b[k] = "B" -> "rel-leaked-base" [] b[k] = "B1" -> "rel-B1" [] OTHER -> "rel-B2"
     [] s = "F" -> "None"
 \* DATE_ORDER field after one run of _try_parser
 OrderAfter(s, k, L, o) ==
@@ -75,7 +80,7 @@ OrderAfter(s, k, L, o) ==
     ELSE o
 
 \* the same call evaluated on the initial state: what a fresh process returns
-Fresh(s, k, L) == Outcome(s, k, L, [x \in Keys |-> InitOrder(x)], [x \in Keys |-> "none"])
+Fresh(s, k, L) == Outcome(s, k, L, [x \in Keys |-> InitOrder(x)], [x \in Keys |-> InitBase(x)])
 
 Step(c, o2, b2, a, res) ==
   /\ order' = o2 /\ base' = b2 /\ cacheSeq' = a.seq /\ ent' = a.ent
@@ -117,7 +122,8 @@ Search(k, L) ==
          \* languages written with spaces are split on whitespace by translate_search (no regex cache is
          \* touched for L); the chunks are then parsed by DateDataParser(languages=['en'])
          a2 == Access(cacheSeq, ent, k, "en")
-         bset == [ri[2] EXCEPT ![k] = "B"]
+         \* search writes RELATIVE_BASE only when the caller did not supply one (need_relative_base)
+         bset == IF InitBase(k) = "none" THEN [ri[2] EXCEPT ![k] = "B"] ELSE ri[2]
          bend == IF SearchRestoresBase THEN ri[2] ELSE bset
          bfin == [bend EXCEPT !["d"] = "none"]                 \* Settings(): default object re-initialised
          ofin == [ri[1] EXCEPT !["d"] = "MDY"]
@@ -141,4 +147,6 @@ HistoryFree == call # <<>> => out = FreshOf(call)
 NoCacheKeyError == out # "KeyError"
 \* calls made with custom settings never change what later default-settings calls return
 DefaultsUnaffected == order["d"] = "MDY" /\ base["d"] = "none"
+\* the registry objects of different settings are different objects: fields never leak between keys
+KeysIndependent == \A k \in Keys : base[k] \in {InitBase(k), "B"}
 =============================================================================
